@@ -529,6 +529,21 @@ def tlaps_check(chk, module, min_obligations, timeout=900):
                                                      "wall_s": round(time.time() - t0, 1)})
 
 
+def apalache_refute(pid, label, module_dir, module, args, timeout=900):
+    """one apalache-mc check that must END WITH A COUNTEREXAMPLE (a deviation of the design, or a non-vacuity
+    query); returns wall seconds; raises ToolError when Apalache accepts"""
+    wd = workdir(pid)
+    out = os.path.join(wd, "apalache_" + label)
+    shutil.rmtree(out, ignore_errors=True)
+    t0 = time.time()
+    p = subprocess.run(["timeout", str(timeout), "apalache-mc", "check"] + args + ["--out-dir=" + out, module],
+                       cwd=module_dir, stdout=subprocess.PIPE, stderr=subprocess.STDOUT, text=True)
+    shutil.rmtree(out, ignore_errors=True)
+    if "EXITCODE: ERROR (12)" not in p.stdout:
+        raise ToolError("vacuity: apalache %s %s was expected to find a counterexample: %s" % (module, label, p.stdout[-800:]))
+    return time.time() - t0
+
+
 def apalache_check(pid, label, module_dir, module, args, timeout=900):
     """one apalache-mc check; returns wall seconds; raises ToolError on a counterexample or failure"""
     wd = workdir(pid)
